@@ -194,3 +194,16 @@ def load_known_findings():
     if not os.path.exists(p):
         return dict(findings=[], fixed=[])
     return json.load(open(p))
+
+
+def safe(fn, *args, **kw):
+    """run a real-code oracle; an exception escaping from the code under test is itself a failing input"""
+    try:
+        return fn(*args, **kw)
+    except Exception as e:  # noqa
+        import traceback
+        return [dict(kind='exception-in-real-code', oracle=fn.__name__, error=f"{type(e).__name__}: {str(e)[:200]}",
+                     traceback=traceback.format_exc()[-1500:])], dict(evals=0, configs=0, queries=0, trials=0, requeries=0,
+                                                                      same_seq=0, dyadic_pairs=0, long_runs=0, chunks=0,
+                                                                      invariance_checks=0, rejections=0, const_checks=0,
+                                                                      pairs=0, triples=0, multi_piece=0)
